@@ -323,6 +323,10 @@ def evalSeq (ev : Expr → M Out) : List Expr → Value → M Out
   | [], last => pure (last, .ok)
   | e :: es, _ => chk (ev e) fun v => evalSeq ev es v
 
+/-- GetPrototypeField(…, not_found_error = false): the prototype method of that name, else Empty. -/
+def protoOr (cfg : Cfg) (type field : String) : Value :=
+  if (cfg.native (type ++ "#" ++ field)).isSome then .fn (type ++ "#" ++ field) else .empty
+
 /-- Object::GetFieldByName (lib/base/object.cpp:106-126) behind VMOps::GetField (vmops.hpp:236-247). -/
 def getField (cfg : Cfg) (sb : Bool) (ctx : Value) (field : String) : M Value := do
   let env ← M.get
@@ -340,14 +344,20 @@ def getField (cfg : Cfg) (sb : Bool) (ctx : Value) (field : String) : M Value :=
         if sb && cfg.fieldCheck && cfg.hidden o.type field then       -- object.cpp:118-123
           M.fail (.hidden o.type field)
         else pure v                                                   -- object.cpp:125
-  | .scope .globals =>                                                -- Namespace::GetFieldByName
+  | .scope .globals =>                                                -- Namespace::GetFieldByName (namespace.cpp:134-144)
     match lookup field env.prot.consts with
     | some v => pure v
     | none => match lookup field env.prot.globals with
       | some v => pure v
-      | none => M.fail (.script ("Namespace does not contain field '" ++ field ++ "'"))
-  | .scope _ => pure ((lookup field env.locals).getD .empty)          -- Dictionary::GetFieldByName
-  | .dict l => pure (match lookup field l with | some s => .str s | none => .empty)
+      | none => pure (protoOr cfg "Namespace" field)                  -- prototype, else Empty (no error)
+  | .scope _ =>                                                       -- Dictionary::GetFieldByName (dictionary.cpp:283-291)
+    match lookup field env.locals with
+    | some v => pure v
+    | none => pure (protoOr cfg "Dictionary" field)
+  | .dict l =>
+    match lookup field l with
+    | some s => pure (.str s)
+    | none => pure (protoOr cfg "Dictionary" field)
   | v =>                                                              -- GetPrototypeField (vmops.hpp:242)
     if cfg.native (v.typeName ++ "#" ++ field) |>.isSome then pure (.fn (v.typeName ++ "#" ++ field))
     else M.fail (.script ("Invalid field access (for value of type '" ++ v.typeName ++ "'): '" ++ field ++ "'"))
